@@ -4098,6 +4098,516 @@ fn cl_matrix_model(driver: &str, obs: &[ClObs], fails: &mut Vec<Fail>, dist: &mu
     }
 }
 
+// ------------------------------------------- window rules (C14, both positions) --
+//
+// WINDOW_UPDATE with a zero increment, WINDOW_UPDATE / SETTINGS_INITIAL_WINDOW_SIZE that lift a
+// window to and past 2^31-1, on the connection and on one of two open streams: what sozu does
+// (nothing / RST_STREAM of that stream / GOAWAY, and the error code) is compared, op by op, with
+// the Lean ledger (`windowUpdate`, `updateInitialWindow`; theorems C14_window_update_rules,
+// C14_settings_delta) driven through the h2flow driver; streams that are not hit must still be served.
+
+#[derive(Clone, Copy, Debug, PartialEq)]
+enum WinOp {
+    Wu(u32, u32),
+    Sinit(u32),
+}
+
+#[derive(Clone, Debug, PartialEq)]
+enum Reaction {
+    None,
+    Rst(u32, u32),
+    Goaway(u32),
+}
+
+const I31: u32 = 0x7fff_ffff;
+
+fn window_rule_scenarios() -> Vec<(&'static str, Vec<WinOp>)> {
+    use WinOp::*;
+    vec![
+        ("zero-increment-connection", vec![Wu(0, 0)]),
+        ("zero-increment-stream", vec![Wu(1, 0)]),
+        ("overflow-connection", vec![Wu(0, I31)]),
+        ("overflow-stream", vec![Wu(3, I31)]),
+        ("connection-to-max-then-one-more", vec![Wu(0, I31 - 65535), Wu(0, 1)]),
+        ("stream-to-max-then-one-more", vec![Wu(1, I31 - 65535), Wu(1, 1)]),
+        ("settings-above-max", vec![Sinit(0x8000_0000)]),
+        ("settings-overflows-a-raised-stream", vec![Wu(1, I31 - 65535), Sinit(65536)]),
+        ("settings-zero-drip-then-max", vec![Sinit(0), Wu(1, 5), Sinit(I31)]),
+        ("settings-max-then-one-more", vec![Sinit(I31), Wu(3, 1)]),
+        ("legal-large-updates", vec![Wu(0, 1 << 30), Wu(1, 1 << 30), Wu(3, 1), Sinit(1 << 20)]),
+    ]
+}
+
+fn winop_frame(op: WinOp) -> Vec<u8> {
+    match op {
+        WinOp::Wu(sid, inc) => frame(8, 0, sid, &inc.to_be_bytes()),
+        WinOp::Sinit(v) => settings_frame(&[(4, v)]),
+    }
+}
+
+/// the model's verdicts for a scenario (`is_client`: sozu's position on the connection under test)
+fn window_rules_model(driver: &str, is_client: bool, ops: &[WinOp]) -> Option<Vec<Reaction>> {
+    if driver.is_empty() {
+        return None;
+    }
+    let mut input = format!("conn {}\n", is_client as u8);
+    input.push_str(if is_client { "openl 65535\nopenl 65535\n" } else { "openp 1\nopenp 3\n" });
+    for op in ops {
+        match op {
+            WinOp::Wu(s, i) => input.push_str(&format!("wu {s} {i}\n")),
+            WinOp::Sinit(v) => input.push_str(&format!("sinit {v}\n")),
+        }
+    }
+    let out = verif_harness::run_model(driver, &input);
+    if out.len() != 3 + ops.len() {
+        return None;
+    }
+    let mut v = vec![];
+    for l in &out[3..] {
+        let w: Vec<&str> = l.split_whitespace().collect();
+        v.push(match (w.first().copied(), w.get(1).copied()) {
+            (Some("ok"), _) => Reaction::None,
+            (Some("err"), Some("goaway-protocol")) => Reaction::Goaway(1),
+            (Some("err"), Some("goaway-flow-control")) => Reaction::Goaway(3),
+            (Some("err"), Some("rst-protocol")) => Reaction::Rst(w.get(2)?.parse().ok()?, 1),
+            (Some("err"), Some("rst-flow-control")) => Reaction::Rst(w.get(2)?.parse().ok()?, 3),
+            // the connection is already dead in the model
+            (Some("closed"), _) => Reaction::None,
+            _ => return None,
+        });
+    }
+    Some(v)
+}
+
+fn wr_body(sid: u32) -> Vec<u8> {
+    pattern(60 + sid as usize, 1500 + sid as usize)
+}
+
+/// compare reactions with the model and judge the surviving streams
+#[allow(clippy::too_many_arguments)]
+fn judge_window_rules(side: &str, class_rule: &str, class_survivor: &str, ops: &[WinOp], observed: &[Reaction], model: &Option<Vec<Reaction>>, served: &BTreeMap<u32, bool>, fatal_expected: bool, extra: &str, case: &str, fails: &mut Vec<Fail>, dist: &mut BTreeMap<String, u64>) {
+    // RFC 9113 6.9 / 6.9.1 / 6.9.2, independent of the model: scope and code of each reaction
+    let mut win_conn: i64 = 65535;
+    let mut init: i64 = 65535;
+    let mut win: BTreeMap<u32, i64> = [(1u32, 65535i64), (3u32, 65535i64)].into_iter().collect();
+    let mut rfc: Vec<Reaction> = vec![];
+    let mut dead = false;
+    for op in ops {
+        if dead {
+            rfc.push(Reaction::None);
+            continue;
+        }
+        let r = match *op {
+            WinOp::Wu(0, 0) => Reaction::Goaway(1),
+            WinOp::Wu(s, 0) => if win.contains_key(&s) { Reaction::Rst(s, 1) } else { Reaction::None },
+            WinOp::Wu(0, i) => if win_conn + i as i64 > I31 as i64 { Reaction::Goaway(3) } else { win_conn += i as i64; Reaction::None },
+            WinOp::Wu(s, i) => match win.get_mut(&s) {
+                Some(w) => if *w + i as i64 > I31 as i64 { Reaction::Rst(s, 3) } else { *w += i as i64; Reaction::None },
+                None => Reaction::None,
+            },
+            WinOp::Sinit(v) => {
+                if v > I31 || win.values().any(|w| *w + (v as i64 - init) > I31 as i64) {
+                    // RFC: FLOW_CONTROL_ERROR; the connection error itself is what the property needs
+                    Reaction::Goaway(u32::MAX)
+                } else {
+                    for w in win.values_mut() {
+                        *w += v as i64 - init;
+                    }
+                    init = v as i64;
+                    Reaction::None
+                }
+            }
+        };
+        if let Reaction::Rst(s, _) = r {
+            win.remove(&s);
+        }
+        if matches!(r, Reaction::Goaway(_)) {
+            dead = true;
+        }
+        rfc.push(r);
+    }
+    let same = |a: &Reaction, b: &Reaction| a == b || matches!((a, b), (Reaction::Goaway(_), Reaction::Goaway(u32::MAX)) | (Reaction::Goaway(u32::MAX), Reaction::Goaway(_)));
+    for (i, op) in ops.iter().enumerate() {
+        let obs = observed.get(i).cloned().unwrap_or(Reaction::None);
+        if !same(&obs, &rfc[i]) {
+            fails.push(Fail { class: class_rule.into(), detail: format!("{side}: op #{i} {op:?}: RFC 9113 6.9 asks for {:?}, sozu did {obs:?} (all ops {ops:?}, all reactions {observed:?}){extra}", rfc[i]), case: case.into() });
+            break;
+        }
+        if let Some(m) = model {
+            if m[i] != obs {
+                fails.push(Fail { class: "h2-window-rules-model-disagrees".into(), detail: format!("{side}: op #{i} {op:?}: the Lean ledger says {:?}, sozu did {obs:?} (model {m:?}, observed {observed:?}){extra}", m[i]), case: case.into() });
+                break;
+            }
+            *dist.entry("window-rules:model-compared".into()).or_insert(0) += 1;
+        }
+    }
+    if !fatal_expected {
+        for (sid, ok) in served {
+            let hit = rfc.iter().any(|r| matches!(r, Reaction::Rst(s, _) if s == sid));
+            if !hit && !*ok {
+                fails.push(Fail { class: class_survivor.into(), detail: format!("{side}: stream {sid} was not touched by {ops:?} (reactions {observed:?}) but was not served{extra}"), case: case.into() });
+            }
+        }
+    }
+}
+
+fn case_window_rules_front(ctx: &mut Ctx, tls: &mut TlsCtx, name: &str, ops: &[WinOp], driver: &str, fails: &mut Vec<Fail>, dist: &mut BTreeMap<String, u64>) -> String {
+    use std::io::Write;
+    let (path, _cid, be) = route_tls(ctx, tls, "v", false);
+    let case = format!("window-rules-front[{name}] path={path} ops={ops:?}");
+    *dist.entry("window-rules:front".into()).or_insert(0) += 1;
+    let stop = std::sync::Arc::new(std::sync::atomic::AtomicBool::new(false));
+    let release = std::sync::Arc::new(std::sync::atomic::AtomicBool::new(false));
+    let arrived = std::sync::Arc::new(std::sync::atomic::AtomicUsize::new(0));
+    let (stop_b, rel_b, arr_b) = (stop.clone(), release.clone(), arrived.clone());
+    // HTTP/1.1 backend: holds every answer until released, so that both streams stay open in sozu
+    let bt = std::thread::spawn(move || {
+        let mut hs = vec![];
+        while !stop_b.load(std::sync::atomic::Ordering::Relaxed) {
+            if let Ok(mut b) = be.accept(Duration::from_millis(15)) {
+                let (stop_c, rel_c, arr_c) = (stop_b.clone(), rel_b.clone(), arr_b.clone());
+                hs.push(std::thread::spawn(move || {
+                    while !stop_c.load(std::sync::atomic::Ordering::Relaxed) {
+                        let Ok(m) = read_http_message(&mut b, Duration::from_millis(100)) else {
+                            if b.eof || b.error.is_some() {
+                                return;
+                            }
+                            continue;
+                        };
+                        arr_c.fetch_add(1, std::sync::atomic::Ordering::SeqCst);
+                        while !rel_c.load(std::sync::atomic::Ordering::Relaxed) && !stop_c.load(std::sync::atomic::Ordering::Relaxed) {
+                            std::thread::sleep(Duration::from_millis(3));
+                        }
+                        let sid: u32 = m.start_line.split(' ').nth(1).and_then(|p| p.rsplit("/s").next()).and_then(|t| t.parse().ok()).unwrap_or(0);
+                        let body = wr_body(sid);
+                        let mut out = format!("HTTP/1.1 200 OK\r\nContent-Length: {}\r\n\r\n", body.len()).into_bytes();
+                        out.extend_from_slice(&body);
+                        if b.write_all(&out, T).is_err() {
+                            return;
+                        }
+                    }
+                }));
+            }
+        }
+        for h in hs {
+            let _ = h.join();
+        }
+    });
+    let finish_threads = |stop: &std::sync::Arc<std::sync::atomic::AtomicBool>, bt: std::thread::JoinHandle<()>| {
+        stop.store(true, std::sync::atomic::Ordering::Relaxed);
+        let _ = bt.join();
+    };
+    let st = match tls_front(tls.front, Duration::from_millis(8)) {
+        Ok(s) => s,
+        Err(e) => {
+            finish_threads(&stop, bt);
+            fails.push(Fail { class: "h2front-transfer-failed".into(), detail: format!("tls connect: {e:?}"), case: case.clone() });
+            return case;
+        }
+    };
+    let mut cl = LedgerClient {
+        st, rx: vec![], pos: 0, enc: loona_hpack::Encoder::new(), dec: loona_hpack::Decoder::new(), peer_init: 65535, conn_avail: 65535,
+        stream_avail: BTreeMap::new(), conn_credit: 0, sent_total: 0, data_started: false, full_window: 65535, rst: BTreeMap::new(),
+        status: BTreeMap::new(), ended: Default::default(), goaway: None, settings_seen: false, settings_acked: false, closed: None, out: vec![],
+        bodies: BTreeMap::new(),
+    };
+    // default windows on both levels: the arithmetic below starts from 65535
+    let mut hello = b"PRI * HTTP/2.0\r\n\r\nSM\r\n\r\n".to_vec();
+    hello.extend_from_slice(&settings_frame(&[]));
+    if cl.st.write_all(&hello).and_then(|_| cl.st.flush()).is_err() {
+        finish_threads(&stop, bt);
+        fails.push(Fail { class: "h2front-transfer-failed".into(), detail: "write hello".into(), case: case.clone() });
+        return case;
+    }
+    let t_hs = Instant::now();
+    while !(cl.settings_seen && cl.settings_acked) && t_hs.elapsed() < Duration::from_secs(3) && !cl.over() {
+        cl.pump();
+    }
+    for sid in [1u32, 3] {
+        let p = format!("{path}/s{sid}");
+        let hs: Vec<(&[u8], &[u8])> = vec![(b":method", b"GET"), (b":scheme", b"https"), (b":path", p.as_bytes()), (b":authority", b"localhost")];
+        let blk = cl.enc.encode(hs);
+        cl.out.extend_from_slice(&frame(1, 5, sid, &blk));
+    }
+    cl.flush();
+    let t_w = Instant::now();
+    while arrived.load(std::sync::atomic::Ordering::SeqCst) < 2 && t_w.elapsed() < Duration::from_secs(2) && !cl.over() {
+        cl.pump();
+    }
+    if arrived.load(std::sync::atomic::Ordering::SeqCst) < 2 {
+        finish_threads(&stop, bt);
+        inconclusive("window-rules set-up", "the two requests did not reach the backend");
+    }
+    let model = window_rules_model(driver, false, ops);
+    let mut observed: Vec<Reaction> = vec![];
+    let mut acks_before = 0usize;
+    let _ = &mut acks_before;
+    for op in ops {
+        if cl.over() {
+            observed.push(Reaction::None);
+            continue;
+        }
+        let rst_before: Vec<u32> = cl.rst.keys().copied().collect();
+        cl.out.extend_from_slice(&winop_frame(*op));
+        cl.flush();
+        let t = Instant::now();
+        let mut r = Reaction::None;
+        while t.elapsed() < Duration::from_millis(120) {
+            cl.pump();
+            if let Some((_, code)) = cl.goaway {
+                r = Reaction::Goaway(code);
+                break;
+            }
+            if let Some((s, c)) = cl.rst.iter().find(|(s, _)| !rst_before.contains(s)) {
+                r = Reaction::Rst(*s, *c);
+                break;
+            }
+            if cl.closed.is_some() {
+                break;
+            }
+        }
+        observed.push(r);
+    }
+    release.store(true, std::sync::atomic::Ordering::Relaxed);
+    let t_r = Instant::now();
+    while t_r.elapsed() < Duration::from_millis(1500) && !cl.over() {
+        if [1u32, 3].iter().all(|s| cl.ended.contains(s) || cl.rst.contains_key(s)) {
+            break;
+        }
+        cl.pump();
+    }
+    finish_threads(&stop, bt);
+    let fatal = observed.iter().any(|r| matches!(r, Reaction::Goaway(_)));
+    let served: BTreeMap<u32, bool> = [1u32, 3].into_iter().map(|s| (s, cl.status.get(&s).map(|x| x == "200").unwrap_or(false) && cl.ended.contains(&s) && cl.bodies.get(&s).map(|b| *b == wr_body(s)).unwrap_or(false))).collect();
+    let extra = format!("; client saw statuses {:?}, resets {:?}, goaway {:?}, {:?}", cl.status, cl.rst, cl.goaway, cl.closed);
+    judge_window_rules("sozu as server (client connection)", "h2-front-window-update-rule-violated", "h2-front-untouched-stream-not-served", ops, &observed, &model, &served, fatal, &extra, &case, fails, dist);
+    case
+}
+
+fn case_window_rules_back(ctx: &mut Ctx, tls: &mut TlsCtx, name: &str, ops: &[WinOp], driver: &str, fails: &mut Vec<Fail>, dist: &mut BTreeMap<String, u64>) -> String {
+    use std::io::Write;
+    let (path, _cid, be) = route_tls(ctx, tls, "y", true);
+    let case = format!("window-rules-back[{name}] path={path} ops={ops:?}");
+    *dist.entry("window-rules:back".into()).or_insert(0) += 1;
+    let stop = std::sync::Arc::new(std::sync::atomic::AtomicBool::new(false));
+    let observed: std::sync::Arc<std::sync::Mutex<(Vec<Reaction>, Vec<String>, usize)>> = Default::default();
+    let (stop_b, obs_b) = (stop.clone(), observed.clone());
+    let ops_b: Vec<WinOp> = ops.to_vec();
+    // scripted h2c backend: on its FIRST connection, once both streams are open, the window ops one by
+    // one (reaction = RST_STREAM / GOAWAY frames from sozu), then 200 for the streams still open;
+    // later connections (a retry after sozu gave up the first) are served plainly
+    let bt = std::thread::spawn(move || {
+        let mut hs = vec![];
+        let mut conn_no = 0usize;
+        while !stop_b.load(std::sync::atomic::Ordering::Relaxed) {
+            let Ok(mut c) = be.accept(Duration::from_millis(15)) else { continue };
+            conn_no += 1;
+            let scripted = conn_no == 1;
+            let (stop_c, obs_c, ops_c) = (stop_b.clone(), obs_b.clone(), ops_b.clone());
+            hs.push(std::thread::spawn(move || {
+                let mut pos = 0usize;
+                let mut preface = false;
+                let mut open: Vec<u32> = vec![];
+                let mut idx_of: BTreeMap<u32, u32> = BTreeMap::new();
+                let mut dec = loona_hpack::Decoder::new();
+                let mut enc = loona_hpack::Encoder::new();
+                let mut rsts: Vec<(u32, u32)> = vec![];
+                let mut goaway: Option<u32> = None;
+                let mut script_done = !scripted;
+                let mut next_op = 0usize;
+                let mut op_sent_at: Option<Instant> = None;
+                let mut rst_seen_before = 0usize;
+                let mut answered: Vec<u32> = vec![];
+                let started = Instant::now();
+                while !stop_c.load(std::sync::atomic::Ordering::Relaxed) {
+                    loop {
+                        if !preface {
+                            if c.received.len() - pos < 24 {
+                                break;
+                            }
+                            pos += 24;
+                            preface = true;
+                            // default windows on both levels
+                            if c.write_all(&settings_frame(&[]), T).is_err() {
+                                return;
+                            }
+                            continue;
+                        }
+                        if c.received.len() - pos < 9 {
+                            break;
+                        }
+                        let h = &c.received[pos..pos + 9];
+                        let len = ((h[0] as usize) << 16) | ((h[1] as usize) << 8) | h[2] as usize;
+                        let (ty, fl) = (h[3], h[4]);
+                        let sid = u32::from_be_bytes([h[5], h[6], h[7], h[8]]) & 0x7fff_ffff;
+                        if c.received.len() - pos - 9 < len {
+                            break;
+                        }
+                        let pl = c.received[pos + 9..pos + 9 + len].to_vec();
+                        pos += 9 + len;
+                        match ty {
+                            4 if fl & 1 == 0 => {
+                                let _ = c.write_all(&frame(4, 1, 0, &[]), T);
+                            }
+                            6 if fl & 1 == 0 => {
+                                let _ = c.write_all(&frame(6, 1, 0, &pl), T);
+                            }
+                            1 => {
+                                if let Ok(list) = dec.decode(&pl) {
+                                    let p = list.iter().find(|(k, _)| k == b":path").map(|(_, v)| String::from_utf8_lossy(v).into_owned()).unwrap_or_default();
+                                    idx_of.insert(sid, p.rsplit("/s").next().and_then(|t| t.parse().ok()).unwrap_or(0));
+                                }
+                                open.push(sid);
+                            }
+                            3 if pl.len() == 4 => {
+                                rsts.push((sid, u32::from_be_bytes([pl[0], pl[1], pl[2], pl[3]])));
+                                open.retain(|s| *s != sid);
+                            }
+                            7 if pl.len() >= 8 => goaway = Some(u32::from_be_bytes([pl[4], pl[5], pl[6], pl[7]])),
+                            _ => {}
+                        }
+                    }
+                    if scripted && !script_done {
+                        let ready = open.len() + rsts.len() >= 2 || started.elapsed() > Duration::from_millis(1500);
+                        if let Some(t) = op_sent_at {
+                            // reaction to the op in flight
+                            let r = if let Some(code) = goaway {
+                                Some(Reaction::Goaway(code))
+                            } else if rsts.len() > rst_seen_before {
+                                Some(Reaction::Rst(rsts[rst_seen_before].0, rsts[rst_seen_before].1))
+                            } else if t.elapsed() > Duration::from_millis(120) {
+                                Some(Reaction::None)
+                            } else {
+                                None
+                            };
+                            if let Some(r) = r {
+                                if let Ok(mut g) = obs_c.lock() {
+                                    g.0.push(r);
+                                }
+                                op_sent_at = None;
+                                next_op += 1;
+                            }
+                        }
+                        if op_sent_at.is_none() && ready {
+                            if goaway.is_some() || next_op >= ops_c.len() {
+                                if let Ok(mut g) = obs_c.lock() {
+                                    while g.0.len() < ops_c.len() {
+                                        g.0.push(Reaction::None);
+                                    }
+                                    g.2 = open.len() + rsts.len();
+                                }
+                                script_done = true;
+                            } else {
+                                rst_seen_before = rsts.len();
+                                if c.write_all(&winop_frame(ops_c[next_op]), T).is_err() {
+                                    return;
+                                }
+                                op_sent_at = Some(Instant::now());
+                            }
+                        }
+                    }
+                    if script_done && goaway.is_none() {
+                        for s in open.clone() {
+                            if answered.contains(&s) {
+                                continue;
+                            }
+                            answered.push(s);
+                            let body = wr_body(*idx_of.get(&s).unwrap_or(&0));
+                            let cl = body.len().to_string();
+                            let blk = enc.encode(vec![(&b":status"[..], &b"200"[..]), (&b"content-length"[..], cl.as_bytes())]);
+                            let mut out = frame(1, 4, s, &blk);
+                            out.extend_from_slice(&frame(0, 1, s, &body));
+                            if c.write_all(&out, T).is_err() {
+                                return;
+                            }
+                        }
+                    }
+                    match c.read_some(Duration::from_millis(8)) {
+                        ReadEnd::Done | ReadEnd::Timeout => {}
+                        ReadEnd::Closed | ReadEnd::Reset => {
+                            if let Ok(mut g) = obs_c.lock() {
+                                g.1.push(format!("connection {conn_no} closed by sozu (goaway {goaway:?}, resets {rsts:?})"));
+                                if scripted && !script_done {
+                                    if op_sent_at.is_some() {
+                                        g.0.push(match goaway {
+                                            Some(code) => Reaction::Goaway(code),
+                                            None => Reaction::Goaway(u32::MAX - 1),
+                                        });
+                                    }
+                                    while g.0.len() < ops_c.len() {
+                                        g.0.push(Reaction::None);
+                                    }
+                                }
+                            }
+                            return;
+                        }
+                    }
+                }
+            }));
+        }
+        for h in hs {
+            let _ = h.join();
+        }
+    });
+    let finish_threads = |stop: &std::sync::Arc<std::sync::atomic::AtomicBool>, bt: std::thread::JoinHandle<()>| {
+        stop.store(true, std::sync::atomic::Ordering::Relaxed);
+        let _ = bt.join();
+    };
+    let st = match tls_front(tls.front, Duration::from_millis(8)) {
+        Ok(s) => s,
+        Err(e) => {
+            finish_threads(&stop, bt);
+            fails.push(Fail { class: "h2tls-h2c-transfer-failed".into(), detail: format!("tls connect: {e:?}"), case: case.clone() });
+            return case;
+        }
+    };
+    let mut cl = LedgerClient {
+        st, rx: vec![], pos: 0, enc: loona_hpack::Encoder::new(), dec: loona_hpack::Decoder::new(), peer_init: 65535, conn_avail: 65535,
+        stream_avail: BTreeMap::new(), conn_credit: 0, sent_total: 0, data_started: false, full_window: 65535, rst: BTreeMap::new(),
+        status: BTreeMap::new(), ended: Default::default(), goaway: None, settings_seen: false, settings_acked: false, closed: None, out: vec![],
+        bodies: BTreeMap::new(),
+    };
+    let mut hello = b"PRI * HTTP/2.0\r\n\r\nSM\r\n\r\n".to_vec();
+    hello.extend_from_slice(&settings_frame(&[]));
+    if cl.st.write_all(&hello).and_then(|_| cl.st.flush()).is_err() {
+        finish_threads(&stop, bt);
+        fails.push(Fail { class: "h2tls-h2c-transfer-failed".into(), detail: "write hello".into(), case: case.clone() });
+        return case;
+    }
+    let t_hs = Instant::now();
+    while !(cl.settings_seen && cl.settings_acked) && t_hs.elapsed() < Duration::from_secs(3) && !cl.over() {
+        cl.pump();
+    }
+    for sid in [1u32, 3] {
+        let p = format!("{path}/s{sid}");
+        let hs: Vec<(&[u8], &[u8])> = vec![(b":method", b"GET"), (b":scheme", b"https"), (b":path", p.as_bytes()), (b":authority", b"localhost")];
+        let blk = cl.enc.encode(hs);
+        cl.out.extend_from_slice(&frame(1, 5, sid, &blk));
+    }
+    cl.flush();
+    let t_r = Instant::now();
+    // a GOAWAY(NO_ERROR) only announces a graceful shutdown: streams up to its last-stream-id go on
+    while t_r.elapsed() < Duration::from_millis(3000) && cl.closed.is_none() && cl.goaway.map(|g| g.1 == 0).unwrap_or(true) {
+        if [1u32, 3].iter().all(|s| cl.ended.contains(s) || cl.rst.contains_key(s)) {
+            break;
+        }
+        cl.pump();
+    }
+    finish_threads(&stop, bt);
+    let (obs, notes, streams_on_first) = observed.lock().map(|g| (g.0.clone(), g.1.clone(), g.2)).unwrap_or_default();
+    if obs.len() < ops.len() || (streams_on_first < 2 && obs.iter().all(|r| *r == Reaction::None)) {
+        // the two streams did not share one backend connection: the scenario did not take place
+        inconclusive("window-rules (backend) set-up", format!("script not run on two open streams: reactions {obs:?}, streams on the first connection {streams_on_first}, {notes:?}"));
+    }
+    // the client's stream ids map to the backend's stream ids in order of arrival (1, 3)
+    let model = window_rules_model(driver, true, ops);
+    let fatal = obs.iter().any(|r| matches!(r, Reaction::Goaway(_)));
+    let served: BTreeMap<u32, bool> = [1u32, 3].into_iter().map(|s| (s, cl.status.get(&s).map(|x| x == "200").unwrap_or(false) && cl.ended.contains(&s) && cl.bodies.get(&s).map(|b| *b == wr_body(s)).unwrap_or(false))).collect();
+    let extra = format!("; client saw statuses {:?}, resets {:?}, goaway {:?}; backend notes {notes:?}", cl.status, cl.rst, cl.goaway);
+    judge_window_rules("sozu as client (h2c backend connection)", "h2c-backend-window-update-rule-violated", "h2c-backend-untouched-stream-not-served", ops, &obs, &model, &served, fatal, &extra, &case, fails, dist);
+    case
+}
+
 fn hpack_scenarios() -> Vec<(&'static str, Option<u32>, Vec<HpStep>)> {
     let r = |set: usize| HpStep::Request { set, body: 2, during: None };
     vec![
@@ -4184,7 +4694,7 @@ fn main() {
             Ok(mut t) => {
                 if args.prop != "C03" {
                     for (name, start, steps) in hpack_scenarios() {
-                        if family == "backend-stream-limit" || family == "rxledger" {
+                        if family == "backend-stream-limit" || family == "rxledger" || family == "window-rules" {
                             break;
                         }
                         let case = guarded(&mut guard, &format!("hpack-front[{name}]"), &mut fails, &mut dist, |fails, dist| case_front_hpack(&mut ctx, &mut t, name, start, &steps, fails, dist));
@@ -4228,6 +4738,20 @@ fn main() {
                         }
                     }
                     dist.insert("backend_stream_limit_wall_ms".into(), t_bsl.elapsed().as_millis() as u64);
+                }
+                if args.prop == "C14" && (family.is_empty() || family == "window-rules") {
+                    let t_wr = Instant::now();
+                    for (name, ops) in window_rule_scenarios() {
+                        let _ = guarded(&mut guard, &format!("window-rules-front[{name}]"), &mut fails, &mut dist, |fails, dist| case_window_rules_front(&mut ctx, &mut t, name, &ops, &args.driver, fails, dist));
+                        let _ = guarded(&mut guard, &format!("window-rules-back[{name}]"), &mut fails, &mut dist, |fails, dist| case_window_rules_back(&mut ctx, &mut t, name, &ops, &args.driver, fails, dist));
+                        evaluations += 2;
+                    }
+                    dist.insert("window_rules_wall_ms".into(), t_wr.elapsed().as_millis() as u64);
+                    if family == "window-rules" {
+                        ctx.w.stop();
+                        finish(&args, evaluations, &dist, &samples, &mut fails, &known_witnesses, &guard, t0);
+                        return;
+                    }
                 }
                 if family == "backend-stream-limit" {
                     ctx.w.stop();
@@ -4478,7 +5002,7 @@ fn finish(args: &verif_harness::Args, evaluations: u64, dist: &BTreeMap<String, 
         let setup = class == "worker-died" || class == "rig-setup" || class == "harness-inconclusive" || class == "listener-connect-failed";
         match args.prop.as_str() {
             // peer limits and liveness
-            "C14" => setup || class.starts_with("h2c-") || class.starts_with("h2-front-") || class.starts_with("h2tls-h1-response-stalled") || (class.starts_with("h1-h2c-") && class != "h1-h2c-keepalive-second-request-502") || class == "h2front-response-stalled" || class == "h2-frame-sync-lost-mid-data" || class == "body-corrupted-under-backpressure" || class.starts_with("hpack-") || class == "healthy-backend-request-answered-503",
+            "C14" => setup || class.starts_with("h2c-") || class.starts_with("h2-front-") || class.starts_with("h2tls-h1-response-stalled") || (class.starts_with("h1-h2c-") && class != "h1-h2c-keepalive-second-request-502") || class == "h2front-response-stalled" || class == "h2-frame-sync-lost-mid-data" || class == "body-corrupted-under-backpressure" || class.starts_with("hpack-") || class == "healthy-backend-request-answered-503" || class == "h2-window-rules-model-disagrees",
             // request boundaries at the backend
             "C03" => setup || class.starts_with("h2-h1-") || class.starts_with("c03-"),
             // C02 runs the backend-stream-limit family only: a fully received request answered by sozu instead of the healthy backend
